@@ -80,3 +80,10 @@ func init() {
 		regionSpec{fn: "consensus.validateV2Siafunds", name: "inputs", from: "sigHash := ms.base.InputSigHash(txn)", to: "var inputSum, outputSum uint64"},
 	)
 }
+
+func init() {
+	// C01 / C03 / C08 — the v1 siacoin and siafund rules, whole functions (loops included)
+	extFuncs[coreMod+"/consensus.MidState.siacoinElement"] = "siacoinElement"
+	extFuncs[coreMod+"/consensus.MidState.siafundElement"] = "siafundElement"
+	tcodeRoots = append(tcodeRoots, "consensus.validateSiacoins", "consensus.validateSiafunds")
+}
